@@ -15,11 +15,11 @@ def run(ctx):
             ctx.check_coverage(r0, ["Deliver", "DeliverDup", "DeliverForged", "DeliverEarly"])
             # every target map over the key universe, every delivery order, duplicates and unrequested payloads anywhere
             ctx.model_check("trie", "MC_StateSync", "MC_StateSync.cfg", timeout=ctx.pick(900, 3000),
-                            constants={"Vals": ctx.pick("{1}", "{1, 2}")})
+                            constants={"Vals": "{1, 2}"})
             if not ctx.quick():
                 ctx.model_check("trie", "MC_StateSync", "MC_StateSync_6.cfg", timeout=3000)
             ctx.exhaustive = False  # TLC stage exhaustive; the replayed behaviours are random walks
-        allb = ctx.behaviours("trie", "Gen_StateSync", "Gen_StateSync.cfg", simulate="num=%d" % ctx.pick(90, 600),
+        allb = ctx.behaviours("trie", "Gen_StateSync", "Gen_StateSync.cfg", simulate="num=%d" % ctx.pick(200, 600),
                               depth=42, seed=ctx.seed, timeout=ctx.pick(900, 3000))
         if not ctx.quick():  # three-symbol alphabet (6561 initial target maps are enumerated first: thorough only)
             allb += ctx.behaviours("trie", "Gen_StateSync", "Gen_StateSync_w3.cfg", simulate="num=300",
